@@ -266,18 +266,18 @@ func c19Write(t *fw.T, cs *c19Case) (enc []byte, ok bool) {
 
 type c19Mon struct {
 	keepOrder bool // typed reads use the ByteOrder the reader already has (clones)
-	t        *fw.T
-	cs       *c19Case
-	r        *parse.BinaryReader
-	data     []byte
-	total    int64
-	pos      int64
-	eof      bool // a typed read ran past the end: Err() must be io.EOF from now on
-	loose    bool // a short Read/ReadAt happened: Err() may be nil or io.EOF
-	seekable bool
-	ops      []c19Op
-	last     c19Op
-	cnt      map[string]int
+	t         *fw.T
+	cs        *c19Case
+	r         *parse.BinaryReader
+	data      []byte
+	total     int64
+	pos       int64
+	eof       bool // a typed read ran past the end: Err() must be io.EOF from now on
+	loose     bool // a short Read/ReadAt happened: Err() may be nil or io.EOF
+	seekable  bool
+	ops       []c19Op
+	last      c19Op
+	cnt       map[string]int
 }
 
 func (m *c19Mon) op(name string, a, b int64) {
